@@ -32,8 +32,15 @@ def contains(big, small):
     return big[0] <= small[0] and small[1] <= big[1] and big[2] <= small[2] and small[3] <= big[3]
 
 
-def run_call(cfg, h, kind, eta, theta):
+# magnitudes: the marking is invariant under scaling of the indicators; powers of two scale every float operation of the
+# criterion exactly, so the integer oracle stays valid (squared estimators of a converged run are of order 1e-10 and smaller)
+SCALES = (2.0**-30, 2.0**-50, 2.0**-100, 2.0**40)
+
+
+def run_call(cfg, h, kind, eta, theta, scale=1.0):
     """Executes one Doerfler call on a fresh replay; returns (error or None, info)."""
+    if scale != 1.0:
+        eta = np.array(eta, dtype=float) * scale
     m = build(cfg, h)
     elems = list(m.leaf_elements)
     before = [leaf6(e) for e in elems]
@@ -196,10 +203,10 @@ def work(item):
     outcomes = set()
     classes = set()
 
-    def one(kind, eta, theta):
+    def one(kind, eta, theta, scale=1.0):
         nonlocal n
         n += 1
-        err, info = run_call(cfg, h, kind, eta, theta)
+        err, info = run_call(cfg, h, kind, eta, theta, scale)
         if err is None:
             m, before, top, prints = info
             err = oracle(ref, kind, eta, theta, m, before, top, prints)
@@ -212,14 +219,22 @@ def work(item):
                     err = ('mesh-invariant-after-marking:' + bad[0][0], bad[0][1])
             classes.add((kind, len([1 for r, ax in top if ax == 0]), len([1 for r, ax in top if ax == 1])))
         if err is not None and len(viols) < 3:
-            viols.append((err[0], {'cfg': cfgname, 'history': h, 'kind': kind, 'eta': list(map(int, eta)), 'theta': theta,
-                                   'detail': err[1]}))
+            viols.append((err[0] + ('' if scale == 1.0 else '|scaled-indicators'), {'cfg': cfgname, 'history': h, 'kind': kind, 'eta': list(map(int, eta)), 'theta': theta,
+                                   'scale': scale, 'detail': err[1]}))
 
     if mode == 'A':
         if N <= P['A_iso_max']:
             for v in vectors_iso(N, P['A_iso_full']):
                 for th in THETAS:
                     one('iso', v, th)
+                    if N <= P.get('A_scaled_max', 4):
+                        for sc in SCALES:
+                            one('iso', v, th, sc)
+        if N <= P.get('A_scaled_max', 4) // 2 + 1:
+            for v in itertools.product((0, 1, 2), repeat=2 * N):
+                for th in THETAS:
+                    for sc in SCALES:
+                        one('aniso', v, th, sc)
         if N <= P['A_aniso_max']:
             vs = itertools.product((0, 1, 2), repeat=2 * N) if N <= P['A_aniso_full'] else sparse_vectors(2 * N, 3)
             for v in vs:
@@ -370,7 +385,7 @@ def replay(ctx, data):
             return False
         err = oracle(ref, data['kind'], data['eta'], data['theta'], m, before, [(r, ax) for d, r, ax in log if d == 0], [])
     else:
-        err, info = run_call(cfg, h, data['kind'], data['eta'], data['theta'])
+        err, info = run_call(cfg, h, data['kind'], data['eta'], data['theta'], float(data.get('scale', 1.0)))
         if err is None:
             err = oracle(ref, data['kind'], data['eta'], data['theta'], *info)
     print('result:', err)
